@@ -322,6 +322,25 @@ fn run_group(name: &'static str, tier: &str, tmp: &std::path::Path, budget_s: u6
             let hang = run.res.as_ref().and_then(|r| r.hang.clone()).unwrap_or(Value::Null);
             let target = hang["target"].as_str().unwrap_or("?").to_string();
             let input = hang["input_hex"].as_str().and_then(unhex).unwrap_or_default();
+            // the watchdog is a wall-clock one: confirm the hang by running the case alone in a
+            // fresh process before it becomes a verdict (a stalled machine is not a subject defect)
+            let replay_json = json!({"property": PROP, "clause": "terminates", "replay": {"entry_point": name, "target": target, "input_hex": hex(&input), "mode": hang["mode"]}});
+            let replay_path = tmp.join(format!("{name}.hang-confirm.json"));
+            let _ = std::fs::write(&replay_path, replay_json.to_string());
+            let mut cc = child_command(&["C19".into(), tier.into(), "--replay".into(), replay_path.to_string_lossy().to_string()]);
+            cc.stdout(Stdio::null()).stderr(Stdio::null());
+            let confirmed = match cc.spawn() {
+                Ok(mut ch) => match wait_with_deadline(&mut ch, Instant::now() + Duration::from_secs(CASE_TIMEOUT_S + 15)) {
+                    Some(st) => st.code() != Some(0),
+                    None => true,
+                },
+                Err(_) => true,
+            };
+            if !confirmed {
+                run.note = format!("the watchdog fired on a case of {target} that returns at once when run alone (machine stall, not a subject defect); the sweep of this entry point was abandoned there, its coverage is incomplete in this run");
+                eprintln!("NOTE: {}", run.note);
+                return run;
+            }
             run.note = format!("a case of {target} did not return within {CASE_TIMEOUT_S} s; the sweep was abandoned there");
             run.extra_violations.push(Violation {
                 property: PROP.into(),
